@@ -90,6 +90,12 @@ def scenario(e, cfg, d=None, real=False):
         if own:
             d = build(tmp, cfg, real)
         opts = IFACES[iface]
+        if not real:
+            # a fresh handle per explored path (no state shared between paths), same files
+            d0 = d
+            d = type(d0)(d0.path)
+            d.dataset_structure.shard_file_type = d0.dataset_structure.shard_file_type
+            d.__vt_table__ = d0.__vt_table__
         infos = list(d.shard_info_iterator("train"))
         index = {str(d.path / si.file_infos[0].file_path): i for i, si in enumerate(infos)}
         bits = [e.fresh_bool(f"keep{i}") for i in range(S)]
@@ -145,10 +151,38 @@ def scenario(e, cfg, d=None, real=False):
         e.prove(got == want, f"{iface}[{cfg['ft']}] groups={groups} options={_show(kw)}: consumer got examples {got}, "
                              f"selected shards hold {want}",
                 dict(kind=f"{iface}-selection-differs" + ("" if L is None else "-with-custom_metadata_type_limit")))
+        second_pass(e, d, infos, kw, cfg)
         return dict(iface=iface, selected=sel, options=_show(kw))
     finally:
         if own:
             ctx.__exit__(None, None, None)
+
+
+def second_pass(e, d, infos, kw, cfg):
+    """A later selection on the SAME handle must not be influenced by the earlier one: the options of the first
+    pass minus the predicate / minus everything / with an accept-all predicate."""
+    variant = e.choice("second_pass", 3)
+    kw2 = {k: v for k, v in kw.items() if k != "shard_filter"}
+    if variant == 1:
+        kw2 = {}
+    elif variant == 2:
+        kw2["shard_filter"] = lambda s: True
+    sel = list(range(len(infos)))
+    if kw2.get("shards") is not None:
+        sel = sel[:kw2["shards"]]
+    if kw2.get("custom_metadata_type_limit") is not None:
+        cnt, out = {}, []
+        for i in sel:
+            key = str(sorted((infos[i].custom_metadata or {}).items()))
+            cnt[key] = cnt.get(key, 0) + 1
+            if cnt[key] <= kw2["custom_metadata_type_limit"]:
+                out.append(i)
+        sel = out
+    want = [str(d.path / infos[i].file_infos[0].file_path) for i in sel]
+    got = d.shard_paths_dataset(split="train", **kw2)
+    e.prove(list(got) == want, f"second selection on the same handle {_show(kw2)} after {_show(kw)} on groups={cfg['groups']}: "
+                               f"got {len(got)} shards {[p[-8:] for p in got]}, expected {len(want)}",
+            dict(kind="selection-depends-on-earlier-call"))
 
 
 def _show(kw):
@@ -237,6 +271,9 @@ def run(tier, seed):
 
 def _cfg_from_msg(c, cs):
     msg = c["msg"]
+    if msg.startswith("second selection"):
+        groups = tuple(int(x) for x in msg.split("groups=(")[1].split(")")[0].replace(",", " ").split())
+        return dict(iface="numpy", ft="fb", groups=list(groups))
     iface = msg.split(":")[0].split("[")[0]
     ft = "fb"
     if "[" in msg.split(":")[0]:
